@@ -1558,6 +1558,13 @@ func runRace(res *Result, drv *Driver, seed uint64, n int, tier string, only int
 		cenv := append(os.Environ(), "GORACE=halt_on_error=0 exitcode=66")
 		stdout, stderr, rc, err := runChild(dur*6+3*time.Minute, cenv, tmp, bin, "-seed", fmt.Sprint(seed*1000+uint64(idx)), "-dur", dur.String(),
 			"-workers", fmt.Sprint(workers), "-procs", fmt.Sprint(procs))
+		if err != nil && strings.Contains(err.Error(), "timeout") && !strings.Contains(stderr, "WARNING: DATA RACE") {
+			// a race-instrumented program on an overloaded machine can exceed the limit without hanging: only a hang that
+			// shows again with three times the limit is reported
+			res.Stat("stress-program-timeout:retried-once-with-longer-limit")
+			stdout, stderr, rc, err = runChild(3*(dur*6+3*time.Minute), cenv, tmp, bin, "-seed", fmt.Sprint(seed*1000+uint64(idx)), "-dur", dur.String(),
+				"-workers", fmt.Sprint(workers), "-procs", fmt.Sprint(procs))
+		}
 		res.Stat(fmt.Sprintf("procs:%d", procs))
 		modes := 0
 		rotations, compactions := 0.0, 0.0
